@@ -131,6 +131,34 @@ class LoopGen:
         return text, argdom
 
 
+LOOPKINDS = {1: ("%c0", "%c3", "%c1"), 2: ("%c2", "%c4", "%c1"), 3: ("%c1", "%c8", "%c3"), 4: ("%c0", "%n", "%c1"), 5: ("%c0", "%c4", "%c2")}
+
+
+def render_nest(tokens):
+    lines, ivs, depth, tag, nl = [], [], 0, 0, 0
+    uses_n = False
+    for t in tokens:
+        p = "  " * (2 + depth)
+        if t.startswith("F"):
+            lb, ub, st = LOOPKINDS[int(t[1:])]
+            uses_n = uses_n or ub == "%n"
+            nl += 1
+            lines.append(f"{p}scf.for %i{nl} = {lb} to {ub} step {st} {{")
+            ivs.append(f"%i{nl}")
+            depth += 1
+        elif t == ")":
+            depth -= 1
+            ivs.pop()
+            lines.append("  " * (2 + depth) + "}")
+        else:
+            tag += 1
+            ops = ivs if t == "L1" else []
+            lines.append(f'{p}"test.op"({", ".join(ops)}) {{tag = {tag} : i32}} : ({", ".join("index" for _ in ops)}) -> ()')
+    consts = "\n".join(f"    %c{c} = arith.constant {c} : index" for c in (0, 1, 2, 3, 4, 8))
+    text = "builtin.module {\n  func.func @f(%n : index) {\n" + consts + "\n" + "\n".join(lines) + "\n    func.return\n  }\n}\n"
+    return text, [[0, 1, 2, 5] if uses_n else [1]]
+
+
 def witness_sources(pid):
     out = []
     base = os.path.join(os.path.dirname(os.path.dirname(os.path.abspath(__file__))), "known", pid)
@@ -167,13 +195,22 @@ def run(pid: str, tier: str, seed: int, selftest=False, replay=None) -> int:
         g = LoopGen(rng, dynamic_bounds=(k % 3 == 0), allocs=(k % 2 == 0))
         text, argdom = g.program()
         sources.append((f"gen:{seed}:{k}", text, argdom))
+    # exhaustive small scope (spec/SeqGen.tla): every loop nest skeleton of <= 4 (thorough: 5) nodes, depth <= 3, over 5 loop kinds
+    # (constant / run-time bounds, lb != 0, ub not a multiple of the step, zero-trip) and 2 effect leaves
+    from gen_seq import tlc_sequences
+    rg, seqs = tlc_sequences(pid, 2, 4 if tier == "quick" else 5, 3, False, nf=5)
+    rep.add_tlc(rg)
+    rep.extra["small_scope_programs"] = len(seqs)
+    for toks in seqs:
+        text, argdom = render_nest(toks)
+        sources.append(("small:" + " ".join(toks), text, argdom))
     cases = []
     for name, text, argdom in sources:
         try:
             src = repo.parse(text)
             src.verify()
         except Exception as e:
-            if name.startswith("gen:"):
+            if name.startswith("gen:") or name.startswith("small:"):
                 raise MachineryError(f"generator produced invalid input {name}: {e}\n{text}")
             rep.skipped += 1
             continue
